@@ -51,9 +51,49 @@ def all_cases(ctx):
     return cs
 
 
-def cnf_terms(formula, variables, V):
-    """z3 conjunction of the clause list; node variables shared with V, the rest are aux X_i"""
-    id2 = {}
+def guess_aux_defs(formula, variables, V):
+    """aux id -> z3 term over node variables, guessed from 3-literal clauses as (negated) xor of two defined variables"""
+    node_ids = {i for obj, i in variables.obj2id.items() if obj in V}
+    allv = {abs(l) for c in formula.clauses for l in c}
+    aux = allv - node_ids
+    tri = {}
+    for c in formula.clauses:
+        vs = sorted({abs(l) for l in c})
+        if len(c) == 3 and len(vs) == 3:
+            tri.setdefault(tuple(vs), []).append(c)
+    term = {i: V[obj] for obj, i in variables.obj2id.items() if obj in V}
+    progress = True
+    while progress and aux - set(term):
+        progress = False
+        for x in sorted(aux - set(term)):
+            for vs, cls in tri.items():
+                if x not in vs or len(cls) != 4:
+                    continue
+                p_, q_ = [v for v in vs if v != x]
+                if p_ not in term or q_ not in term:
+                    continue
+                for neg in (False, True):
+                    ok = True
+                    for pv in (0, 1):
+                        for qv in (0, 1):
+                            xv = (pv ^ qv) ^ (1 if neg else 0)
+                            val = {p_: pv, q_: qv, x: xv}
+                            ok &= all(any((val[abs(l)] == 1) == (l > 0) for l in c) for c in cls)
+                    if ok:
+                        t = z3.Xor(term[p_], term[q_])
+                        term[x] = z3.Not(t) if neg else t
+                        progress = True
+                        break
+                if x in term:
+                    break
+    if aux - set(term):
+        return None
+    return {i: term[i] for i in aux}
+
+
+def cnf_terms(formula, variables, V, defs=None):
+    """z3 conjunction of the clause list; node variables shared with V, the rest are aux X_i (or the given definitions)"""
+    id2 = dict(defs or {})
     for obj, i in variables.obj2id.items():
         if obj in V:
             id2[i] = V[obj]
@@ -119,10 +159,36 @@ def run(ctx):
                     "detail": {"valuation": val, "solve": str(r)[:300], "err": repr(e), "circuit": net.spec() if len(nodes) < 30 else None}}
 
         ctx.prove("O1-sound", [CNF, z3.Not(R)], replay_sound)
-        if X:
-            ctx.prove("O2-complete", [R, z3.ForAll(X, z3.Not(CNF))], replay_complete)
-        else:
+        if not X:
             ctx.prove("O2-complete", [R, z3.Not(CNF)], replay_complete)
+        else:
+            # completeness = forall V (R(V) -> exists X CNF(V,X)).  First try an explicit witness X := defs(V) guessed from the
+            # clause list (each aux = xor of two already defined variables); with a witness the query is quantifier-free.
+            # The guess is not trusted: if it fails (or its counterexample does not replay) the 2QBF query decides.
+            done = False
+            defs = guess_aux_defs(formula, variables, V)
+            if defs is not None:
+                CNFw, _ = cnf_terms(formula, variables, V, defs)
+                s = z3.Solver()
+                s.set("timeout", 60000)
+                s.add(R, z3.Not(CNFw))
+                r = s.check()
+                if r == z3.unsat:
+                    ctx.r["obligations"] += 1
+                    ctx.r["unsat"] += 1
+                    ctx.count("completeness_by_witness")
+                    done = True
+                elif r == z3.sat:
+                    rep = replay_complete(s.model())
+                    if rep["reproduced"]:
+                        ctx.r["obligations"] += 1
+                        ctx.r["sat"] += 1
+                        ctx.r["replays"] += 1
+                        ctx.violation(rep["sig"], rep["what"], rep["detail"], tag="O2-complete")
+                        done = True
+            if not done:
+                ctx.count("completeness_by_2qbf")
+                ctx.prove("O2-complete", [R, z3.ForAll(X, z3.Not(CNF))], replay_complete)
         # vacuity: the reference relation is satisfiable unless the circuit has no stable state
         s = z3.Solver()
         s.add(R)
